@@ -24,14 +24,21 @@ CORR_HEADER = ("From Coq Require Import String ZArith QArith List Bool.\n"
                "From ACN Require Import Base.Num Model.Feasible.\nImport ListNotations.\n"
                "Open Scope Q_scope.\n")
 CHECK_FN = "check_c06"
-RULE = ("random networks (1-8 stations, 0-5 constraints, mixed-sign coefficients from {0,+-1/4,+-1/2,+-1} or random, "
-        "phases from {30,-90,150}, {0} or arbitrary, limits incl. 0/negative, default and non-default tolerances) built "
-        "through register_evse/add_constraint; schedules with 1-6 periods whose critical constraint current is placed at "
-        "limit*(1+-k*1e-7) (k=0..50), (limit+tol)*(1+-k*1e-8), far inside/outside, or EXACTLY on limit+tol (dyadic data, "
-        "phase 0, float arithmetic exact, decides >= vs >); Interface mappings omit zero stations, add unknown ids, are "
-        "empty or ragged; each schedule is run with linear False and True through all three implementations; distinct = "
-        "(network, schedule, mapping, linear); cases whose decision changes under a +-1e-9 relative slack of limit+tol are "
-        "skipped as float-ambiguous")
+RULE = ("random networks (1-8 stations, 0-5 constraints, mixed-sign coefficients from {0,+-1/4,+-1/2,+-1} or random, phases from "
+        "{30,-90,150}, {0} or arbitrary, limits incl. 0/negative, default / non-default / constructor-default tolerances, "
+        "exotic and falsy station ids, heterogeneous voltages, stations re-registered before the constraints) built through "
+        "register_evse/add_constraint; schedules with 0-6 periods (and long horizons 128..300 with one loaded column) whose "
+        "critical constraint current is placed at limit*(1+-k*1e-7), (limit+tol)*(1+-k*1e-8), far inside/outside, EXACTLY on / "
+        "2^-10 or one ulp around limit+tol (dyadic data, phase 0), or between an explicit (zero/negative) and the network's "
+        "tolerance; explicit tolerance arguments incl. 0/0.0 separately and together; Interface mappings omit zero stations, "
+        "add unknown ids, are empty or ragged, with list/tuple/ndarray/int element types; integer schedules as int arrays; each "
+        "schedule runs with linear False and True through all three implementations (held or fresh InfrastructureInfo) and, for "
+        "a third of the networks, through a JSON-reloaded twin; between queries the same objects see accepted mutations "
+        "(same-name update / remove+add / add / remove) and REFUSED ones (unregistered station, missing name, late "
+        "registration); pairs of live same-shape networks are queried alternately; side probes: arguments and network arrays "
+        "unchanged, returned arrays not aliased, overwritten InfrastructureInfo harmless, constraint_current sub-selection, a "
+        "second process with another PYTHONHASHSEED; distinct = (network, history, schedule, mapping, linear); cases whose "
+        "decision changes under a +-1e-9 relative slack of limit+tol are skipped as float-ambiguous")
 ASSUMPTIONS = ["theorems are over R with exact arithmetic (cos/sin of deg2rad(phase)); the implementation computes in IEEE doubles",
                "well-formed networks: constraint_matrix rows, magnitudes and constraint_index aligned (C12's subject)",
                "the executable model receives (cos, sin) of each phase angle computed by the harness with math.cos/math.sin(math.radians(.)), independently of the implementation",
@@ -334,13 +341,16 @@ def run_impl(net, itf, X, T, mapping, ovt=None, ort=None, var=None):
         if var.get("poke_info") and info is not None and info is not getattr(net, "_verif_info_poked", None):
             # the caller owns the InfrastructureInfo it was handed: overwriting it must not reach the network
             before = (net.is_feasible(Xa), None if net.constraint_matrix is None else net.constraint_matrix.copy(),
-                      net.magnitudes.copy())
+                      net.magnitudes.copy(), net._phase_angles.copy(), net._voltages.copy())
             mine = itf.infrastructure_info()
             mine.constraint_limits[...] = 1e9
             mine.constraint_matrix[...] = 0
-            mine.phases[...] = 0
+            mine.phases[...] = 0.125
+            mine.voltages[...] = 1
             after = net.is_feasible(Xa)
             fresh = itf.infrastructure_info()
+            if not np.array_equal(net._phase_angles, before[3]) or not np.array_equal(net._voltages, before[4]):
+                notes.append("overwriting a returned InfrastructureInfo changed the network's phase angles / voltages")
             if after != before[0] or not np.array_equal(net.magnitudes, before[2]) or \
                     (before[1] is not None and not np.array_equal(net.constraint_matrix, before[1])):
                 notes.append("overwriting a returned InfrastructureInfo changed the network")
@@ -1071,9 +1081,15 @@ def rerun(inp):
     itf = make_interface(net)
     if h:
         # the recorded sequence on ONE Interface: fetch the info, mutate the network, fetch again ...
+        refused_notes = []
         for op in h["ops"]:
             itf.infrastructure_info()
-            apply_op(net, op)
+            before = read_back(net) + (len(net.constraint_index),)
+            exc = apply_op(net, op)
+            after = read_back(net) + (len(net.constraint_index),)
+            if op["op"].startswith("rej-") and after != before:
+                refused_notes.append("a refused call (%s -> %s) changed the network: limits %s -> %s, %d constraint names" % (
+                    op["op"], exc, before[1][:3], after[1][:3], after[3]))
     mapping = [(int(i), r) for i, r in inp["mapping"]]
     if other is not None:
         import numpy as np
@@ -1088,7 +1104,10 @@ def rerun(inp):
     if var.get("hold_info"):
         itf_info = itf.infrastructure_info()     # the info held from an earlier query on this network state
         net._verif_info = itf_info
-    return run_impl(net, itf, inp["X"], inp["T"], mapping, inp.get("ovt"), inp.get("ort"), var)
+    impl = run_impl(net, itf, inp["X"], inp["T"], mapping, inp.get("ovt"), inp.get("ort"), var)
+    if h and refused_notes:
+        impl["notes"] = refused_notes + impl.get("notes", [])
+    return impl
 
 
 def replay(w):
